@@ -454,6 +454,9 @@ def tt_cp_apr_pdnr(  # noqa: PLR0912,PLR0913,PLR0915
     # Extract the number of modes in tensor X
     N = input_tensor.ndims
 
+    # Work on a copy so the caller's initial guess is left untouched
+    init = init.copy()
+
     # If the initial guess has any rows of all zero elements, then modify so the row
     # subproblem is not taking log(0). Values will be restored to zero later if the
     # unfolded X for the row has no zeros.
@@ -814,6 +817,9 @@ def tt_cp_apr_pqnr(  # noqa: PLR0912,PLR0913,PLR0915
     #  algorithm portion
     # Extract the number of modes in data tensor
     N = input_tensor.ndims
+
+    # Work on a copy so the caller's initial guess is left untouched
+    init = init.copy()
 
     # If the initial guess has any rows of all zero elements, then modify so the row
     # subproblem is not taking log(0). Values will be restored to zero later if the
